@@ -388,6 +388,28 @@ func runC07(c *eng.Ctx) {
 	})
 
 	// ---- 8. who may ack the log -----------------------------------------------------------------------------------------------
+	// ---- sequences are per LEADER log: the key of a local replicator is the leader of its channel, and a flusher records every
+	// sequence it is given (0 is a sequence: the first entry of a log) ------------------------------------------------------------------
+	c.Rule("PROV", "replica.NewLocalReplicator{sequence key = leader} / kv.storeFlusher.Sequence{always recorded}", func() {
+		f := c.Fn("replica.NewLocalReplicator")
+		st := c.One(f, eng.StoreField(lrT+".leader"), "lr.leader = int32(channel.State.Leader)")
+		v := st.Instr.(*ssa.Store).Val
+		c.Check(eng.DependsOnField(v, "models.ReplicaState.Leader") && !eng.DependsOnField(v, "models.ReplicaState.Follower"), "keyed-by-the-leader", st.Instr, f,
+			"the family's applied / persisted sequences and acknowledgements of a local replicator are filed under the LEADER whose log it replays (each leader numbers its log from 0): after a leader change two logs reach the same family, and under one key the new log's entries would be rejected as already persisted",
+			"the key is "+p.Desc(v))
+		g := c.Fn("kv.storeFlusher.Sequence")
+		mu := func(p *eng.Prog, in ssa.Instruction) bool {
+			m, ok := in.(*ssa.MapUpdate)
+			return ok && eng.DependsOnField(m.Map, "kv.storeFlusher.sequences") && m.Value == ssa.Value(g.Params[2]) && m.Key == ssa.Value(g.Params[1])
+		}
+		_, skip := eng.PathExists(eng.PathQuery{Fn: g,
+			Target:  func(in ssa.Instruction) bool { _, ok := in.(*ssa.Return); return ok && in.Parent() == g },
+			Blocked: func(in ssa.Instruction) bool { return mu(p, in) }})
+		c.Check(!skip, "sequence-recorded-on-every-path", nil, g,
+			"storeFlusher.Sequence(leader, seq) records sequences[leader] = seq unconditionally: a guard against the map's zero value drops sequence 0, and the table that contains entry 0 is committed without it (the entry is replayed and applied twice after a crash)",
+			"a path returns without sequences[leader] = seq")
+	})
+
 	c.Rule("OWNER", "replica{SetAckIndex}", func() {
 		owner(c, "call of ConsumerGroup.Ack", eng.AnyCallTo("pkg/queue.ConsumerGroup.Ack", cgT+".Ack"), []string{rpT + ".SetAckIndex"}, 1)
 		owner(c, "call of replicator.SetAckIndex", eng.AnyCallTo(rpT+".SetAckIndex", "replica.Replicator.SetAckIndex"),
